@@ -10,6 +10,13 @@ import LokyModel.Pickle
     put <idx>                    → like dumps
     exec <job|none> <res|none>   → exec <idx> <idx+1> job=<reducers|none> res=<reducers|none>
     final                        → p0=<lookups> p1=… g=<same|changed>         (`-` when no pickler)
+    reuse <probes> <op;op;…>     → one `;`-separated answer per op (stateless), ops on the reusable singleton:
+          q/<workers>/<timeout>/<job|none>/<res|none>/<init|none>/<initargs|->/<env|none>   get_reusable_executor(…)
+              → <new|reused>,id=<executor_id>,w=<workers>,job=<beh…>,res=<beh…>,init=<beh|none>,args=<…|->,env=<…|none>
+                (`args`: what the initializer is called with; `-` without initializer)
+          s                                                                                  executor.shutdown() by the user → s
+          p/<job|none>/<res|none>        a plain ProcessPoolExecutor next to it               → plain,job=<beh…>,res=<beh…>
+        `<beh…>`: per probe type the behaviour tag (identity mod 100) of the reducer in force, `n` = none
     rt <fnames> <members> <term> → <term of loads(dumps(x))> | fail
     behid <d>                    → beh <d> <d>
 
@@ -141,6 +148,60 @@ def parseWorld (fnames members : String) : Option World := do
   let ms ← if members == "-" then some [] else (members.splitOn ",").mapM parseMember
   some ⟨fun f => (fn.lookup f).getD 0, fun c n => (ms.find? (fun p => p.1 == (c, n))).map (·.2)⟩
 
+/-! ### the reusable singleton -/
+
+def parseOptNat (s : String) : Option (Option Nat) :=
+  if s == "none" then some none else s.toNat?.map some
+
+def behOf (probes : List Nat) (t : Option Table) : String :=
+  if probes.isEmpty then "-" else ",".intercalate (probes.map (fun ty =>
+    match (t.getD []).lookup ty with
+    | some r => toString (r % 100)
+    | none => "n"))
+
+def showNats (l : List Nat) : String := if l.isEmpty then "-" else ",".intercalate (l.map toString)
+
+def showEnv : Option (List (Nat × Nat)) → String
+  | none => "none"
+  | some [] => "-"
+  | some l => ",".intercalate (l.map (fun p => s!"{p.1}:{p.2}"))
+
+def reuseOp (probes : List Nat) (s : RState) (tok : String) : Option (RState × String) :=
+  match tok.splitOn "/" with
+  | ["s"] => some (rstep sameKwargs s .shutdown, "s")
+  | ["p", j, r] => do
+    let j ← parseOptTable j
+    let r ← parseOptTable r
+    some (s, s!"plain,job={behOf probes j},res={behOf probes (resultReducers j r)}")
+  | ["q", w, to, j, r, i, ia, env] => do
+    let w ← w.toNat?
+    let to ← to.toNat?
+    let j ← parseOptTable j
+    let r ← parseOptTable r
+    let i ← parseOptNat i
+    let ia ← parseNats ia
+    let env ← parseOptTable env
+    let k : Kwargs := ⟨to, j, r, i, ia, env⟩
+    let (s', reused) := request sameKwargs s w k
+    match s'.cur with
+    | some e =>
+      some (s', s!"{if reused then "reused" else "new"},id={e.id},w={e.maxWorkers},job={behOf probes e.jobq},res={behOf probes e.resq}" ++
+        s!",init={match e.init with | some i => toString (i % 100) | none => "none"},args={if e.init.isSome then showNats e.initargs else "-"},env={showEnv e.env}")
+    | none => none
+  | _ => none
+
+def reuseLine (probes : List Nat) (toks : List String) : String :=
+  let rec go (s : RState) (toks : List String) (acc : List String) : Option (List String) :=
+    match toks with
+    | [] => some acc.reverse
+    | t :: rest =>
+      match reuseOp probes s t with
+      | some (s', o) => go s' rest (o :: acc)
+      | none => none
+  match go ⟨0, none⟩ toks [] with
+  | some outs => if outs.isEmpty then "-" else ";".intercalate outs
+  | none => "bad-op"
+
 /-! ### the loop -/
 
 def handle (d : Option DState) (ws : List String) : Option DState × String :=
@@ -159,6 +220,10 @@ def handle (d : Option DState) (ws : List String) : Option DState × String :=
       | none => (d, "fail")
     | _, _ => (d, "bad-op")
   | ["behid", x] => (d, s!"beh {x} {x}")
+  | ["reuse", probes, ops] =>
+    match parseNats probes with
+    | some probes => (d, reuseLine probes (if ops == "-" then [] else ops.splitOn ";"))
+    | none => (d, "bad-op")
   | _ =>
     match d with
     | none => (d, "bad-op")
